@@ -1,7 +1,7 @@
 #!/bin/bash
 # try_seed.sh <seedname> <check ids...> : apply the seeded patch to /repo, run the checks (quick), undo
 S=$1; shift
-git -C /repo apply /tmp/seed_$S/patch.diff || exit 1
+git -C /repo apply /verif/seeded/$S/patch.diff || exit 1
 for P in "$@"; do (cd /verif && ./check $P 2>&1 | grep -E "VIOLATION|\[check\] $P" | head -4); done
 git -C /repo checkout -- .
 git -C /repo status --short | head -3
